@@ -1255,6 +1255,9 @@ class Interp:
                 return     # "absent-valued keys or values result in a skipped assignment": nothing is created
             cur = self.base_get(base)
             if cur is ABSENT:
+                if base[0] == "local" and self.lookup(base[1]) is not None and is_int(idxs[0]):
+                    # declared but unset: still "as-yet-unassigned", so auto-create gives a map (arrays page)
+                    self.feats.add("int-indexed-assign-on-unset-local")
                 cur = {}
                 self.put_indexed(cur, idxs, value)
                 self.bump("autocreate")
